@@ -10,6 +10,52 @@ BASELINE_OFF = ("cd /repo && env -u SYM_METANET_VERIF /venv/bin/python -m pytest
 
 # id -> (technique, level text, level note, design ref)
 CHECKS = {
+    "C03": (
+        "exhaustive enumeration of network programs x compilation variants (symbol type x compactness x extra outputs x "
+        "symbolic parameters) x deviation-bounded value vectors; compiled function vs NumPy step of a twin network",
+        "Bounded exhaustive exploration on the implementation: every valid topology/configuration within the bound is "
+        "compiled by the real CasADi engine in 11 (quick) / all 24 (thorough) variants and evaluated on the base vectors "
+        "and every single excursion over the branch-boundary alphabets (zero speeds, guard region, infinite limits); every "
+        "next-state scalar is compared with the real NumPy step of a twin network.",
+        "Results are located through the layout model (C04 checks it independently); both engines producing NaN at the "
+        "model's own 0/0 counts as agreement; tolerance 1e-9.",
+        "DESIGN.md section 3, C03",
+    ),
+    "C04": (
+        "exhaustive enumeration of network programs x construction orders x compilation variants; names, sizes, free "
+        "symbols, values, feedback and level equivalence compared with a layout model derived from the construction calls",
+        "Bounded exhaustive exploration on the implementation: for every valid topology/configuration within the bound "
+        "and 3 construction orders, the real to_function result at compactness 0/1/2, with/without extra outputs, "
+        "parameters and positivity-init options, SX and MX, must have exactly the argument/result names, sizes and order "
+        "of the layout model, no free symbol, successors named after their state argument, element-distinct values "
+        "located through the model equal to the NumPy twin, F(F(x)) fed back positionally equal to two NumPy steps, and "
+        "equal result scalars across the three levels.",
+        "Layout model mc/layout.py (documented concatenation; element order = graph edge order, then origins and "
+        "destinations in node order, derived from the construction calls by a model of DiGraph insertion order).",
+        "DESIGN.md section 3, C04",
+    ),
+    "C05": (
+        "exhaustive enumeration of network programs x compactness x symbol type x positivity-init options x value "
+        "vectors; self-consistency relations between reported flows, inputs and next states of the same call",
+        "Bounded exhaustive exploration on the implementation with more_out=True: every reported link flow equals "
+        "(clamped) rho*v*lanes of the input segment, every queued origin's next queue equals w + T(d - reported q_o), "
+        "and the first-segment density update of the fed link balances with the reported flows, on every single-excursion "
+        "vector (with negative values when positivity-init is on).",
+        "Same T forwarded to to_function as to step; relations with an infinite reported flow are skipped; layout model "
+        "locates the results.",
+        "DESIGN.md section 3, C05",
+    ),
+    "C16": (
+        "exhaustive enumeration of (network program, symbolic-parameter subset, declaration order, compilation variant); "
+        "symbolic function at parameter values vs twin compiled with numbers",
+        "Bounded exhaustive exploration on the implementation: singletons, the full set and round-robin pairs of the 12 "
+        "parameters on every network within the bound, all subsets of size <=2 (thorough: all 4096 subsets) and all "
+        "declaration orders of two triples on the harness list; every result scalar (next states and flows) of the "
+        "symbolic function evaluated at two parameter value sets equals the numeric twin; trailing argument names / "
+        "stacked p follow the declared order; no free symbols.",
+        "A symbolic link parameter is shared by all links; lanes and turn rates never symbolic; tolerance 1e-9.",
+        "DESIGN.md section 3, C16",
+    ),
     "C02": (
         "exhaustive enumeration of network programs x deviation-bounded value vectors, network-wide and per-node "
         "vehicle balances computed from each real step's own inputs and outputs",
